@@ -620,6 +620,35 @@ func registerIntrinsics(e *Engine) {
 			return old
 		}
 	}
+	// sync/atomic.Value: the stored interface value lives in the struct's only
+	// field (the real implementation goes through unsafe pointers)
+	valueField := func(e *Engine, recv Value) Value {
+		p, ok := recv.O.(Ptr)
+		if !ok {
+			e.nilDeref()
+		}
+		if p.n.kind == nkStruct && len(p.n.kids) > 0 {
+			return Value{O: Ptr{p.n.kids[0], -1}}
+		}
+		return recv
+	}
+	in["(*sync/atomic.Value).Load"] = func(e *Engine, a []Value, c *callCtx) Value {
+		return e.atomicLoad(valueField(e, a[0]))
+	}
+	in["(*sync/atomic.Value).Store"] = func(e *Engine, a []Value, c *callCtx) Value {
+		if a[1].O == nil {
+			e.goPanicStr("sync/atomic: store of nil value into Value")
+			panic(goPanicSignal{})
+		}
+		e.atomicStore(valueField(e, a[0]), a[1])
+		return Value{}
+	}
+	in["(*sync/atomic.Value).Swap"] = func(e *Engine, a []Value, c *callCtx) Value {
+		f := valueField(e, a[0])
+		old := e.atomicLoad(f)
+		e.atomicStore(f, a[1])
+		return old
+	}
 	in["sync/atomic.LoadPointer"] = func(e *Engine, a []Value, c *callCtx) Value { return e.atomicLoad(a[0]) }
 	in["sync/atomic.StorePointer"] = func(e *Engine, a []Value, c *callCtx) Value { e.atomicStore(a[0], a[1]); return Value{} }
 	in["sync/atomic.SwapPointer"] = func(e *Engine, a []Value, c *callCtx) Value {
